@@ -453,10 +453,19 @@ func main() {
 			continue
 		}
 		r := nv.recs[0]
+		for _, x := range nv.recs {
+			// workers write replay files for their first violations only
+			if x.Replay != "" {
+				r = x
+				break
+			}
+		}
 		fmt.Printf("violation class %s in %d run(s), first seed %d:\n  %s\n", fp, len(nv.recs), r.Seed, strings.ReplaceAll(r.Viol.Msg, "\n", "\n  "))
 		if r.Replay == "" {
-			fmt.Println("  (no replay file was written for this run)")
-			exit = 2
+			fmt.Println("  (no replay file was written for a run of this class)")
+			if exit == 0 {
+				exit = 2
+			}
 			continue
 		}
 		final := filepath.Join(verifDir, "replays", fmt.Sprintf("%s-%d.json", prop, r.Seed))
